@@ -158,4 +158,34 @@ def collect : List Bytes → Except Err (List Entry)
 /-- `read_series_file` on the bytes of the file -/
 def readSeries (bytes : Bytes) : Except Err (List Entry) := collect (splitLines bytes [])
 
+/-- one line of `.pc/applied-patches` (`read_series_file(.., with_comments = false)`): the same format, but
+a line that starts with `#` is a patch name like any other, not a comment -/
+def parseLineA (line : Bytes) : Except Err (Option Entry) :=
+  if line.isEmpty then .ok none
+  else
+    match splitWs line [] with
+    | [] => .ok none
+    | name :: [] => .ok (some { name, strip := Extracted.defaultPatchStrip, reverse := false })
+    | name :: toks =>
+      match getopts (toks.length + 1) toks {} with
+      | .error e => .error e
+      | .ok o =>
+        let strip := (o.strip.bind parseUsize).getD Extracted.defaultPatchStrip
+        .ok (some { name, strip, reverse := o.reverse })
+
+def collectA : List Bytes → Except Err (List Entry)
+  | [] => .ok []
+  | l :: ls =>
+    if !validUtf8 l then .error .io
+    else match parseLineA (stripCr l) with
+      | .error e => .error e
+      | .ok none => collectA ls
+      | .ok (some e) =>
+        match collectA ls with
+        | .error er => .error er
+        | .ok es => .ok (e :: es)
+
+/-- `.pc/applied-patches` on the bytes of the file -/
+def readApplied (bytes : Bytes) : Except Err (List Entry) := collectA (splitLines bytes [])
+
 end RQ.Series
